@@ -122,7 +122,7 @@ class BetdaqWorld:
         self.script = list(script)
         self.hooks = hooks
         self.faults = list(faults or [])
-        self.budgets = dict(fill=1, foreign=1)
+        self.budgets = dict(fill=1, foreign=1, pollall=1)
         self.budgets.update(budgets or {})
         self.errors = []
         self.local = threading.local()
@@ -274,6 +274,8 @@ class BetdaqWorld:
                 break
         if self.api.seq > self.api.polled_seq:
             ev.append(("POLL",))
+        if self.budgets.get("pollall", 0) > 0 and self.api.orders and self.api.seq == self.api.polled_seq:
+            ev.append(("POLLALL",))  # the polling thread restarts: its bootstrap call delivers every order again, unchanged
         if self.budgets.get("foreign", 0) > 0 and self.api.orders:
             ev.append(("FOREIGN",))  # an order of the same account that this instance does not know shows up (matched)
         if self.budgets["fill"] > 0:
@@ -306,6 +308,10 @@ class BetdaqWorld:
             t.step()
         elif k == "POLL":
             d = self.api.diff()
+            self.dispatch(events.CurrentOrdersEvent(d, exchange=ExchangeType.BETDAQ))
+        elif k == "POLLALL":
+            self.budgets["pollall"] -= 1
+            d = sorted((dict(o) for o in self.api.orders.values()), key=lambda x: x["sequence_number"])
             self.dispatch(events.CurrentOrdersEvent(d, exchange=ExchangeType.BETDAQ))
         elif k == "FOREIGN":
             self.budgets["foreign"] -= 1
@@ -395,8 +401,11 @@ class BetdaqLife(L.Life):
             return
         if "C10" in self.en:
             self._c10(w, m)
+            self._c10_ground(w, m)
         if "C15" in self.en:
             self._c15(w, m)
+        if "C16" in self.en:
+            self._c16(w, m)
         if "C03" in self.en:
             for o in m.blotter:
                 if id(o) in self.sent_complete:
@@ -413,6 +422,67 @@ class BetdaqLife(L.Life):
                         self.v("C03.c", ("handler", "complete-flag", "exchange-unmatched"), "order reported complete while the exchange holds it unmatched with %s remaining (report of another order applied to it?)" % x["remaining_size"], once=(id(o), "exch"))
 
 
+def _c16(self, w, m):
+    """exposure leg: whenever nothing is in flight and every exchange-side change has been polled, the exposure
+    reported for each runner equals the brute-force worst case over the exchange's own records of the bets"""
+    from fractions import Fraction as F
+    from mc import refs
+
+    if w.pool.outstanding() or w.api.seq != w.api.polled_seq:
+        return
+    by_lookup = {}
+    for o in m.blotter:
+        st = L.sname(o.status)
+        if o.bet_id is None:
+            if st not in ("VIOLATION", "EXECUTION_COMPLETE"):
+                return  # a placement whose fate is unknown (raised): not a stable point
+            continue
+        x = w.api.orders.get(o.bet_id)
+        if x is None or st in ("PENDING", "CANCELLING", "UPDATING", "REPLACING"):
+            return
+        frags = [(x["matched_price"], x["matched_size"])] if x["matched_size"] else []
+        by_lookup.setdefault(o.lookup, []).append(refs.RefOrder(o.side, "LIMIT", False, "EXECUTABLE" if x["status"] == "Unmatched" else "EXECUTION_COMPLETE", x["status"] != "Unmatched", frags, x["remaining_size"], x["price"], None))
+    for lookup, rfs in by_lookup.items():
+        self.c("clause:C16.a")
+        self.c("exposure_points")
+        strategy = w.strategies[0]
+        ge = m.blotter.get_exposures(strategy, lookup)
+        ew, el = refs.ref_selection(rfs)
+        for nm, g, e in (("win", ge["worst_possible_profit_on_win"], ew), ("lose", ge["worst_possible_profit_on_lose"], el)):
+            if abs(F(str(g)) - e) > F(3, 100):
+                self.v("C16.a", ("get_exposures", "under" if F(str(g)) > e else "over"), "runner %s: profit_if_%s reported %s, worst case over the exchange's records %s (local price/matched/remaining %s)" % (lookup[1:], nm, g, float(e), [(o.order_type.price, o.size_matched, o.size_remaining) for o in m.blotter if o.lookup == lookup]), once=(lookup, nm))
+
+
+BetdaqLife._c16 = _c16
+
+
+def _c10_ground(self, w, m):
+    """C10.d against the exchange's own records: once nothing is in flight and every exchange-side change has been
+    polled, a runner all of whose bets are finished at the exchange (matched / cancelled) no longer charges a live
+    trade - whatever the local orders believe"""
+    if w.pool.outstanding() or w.api.seq != w.api.polled_seq:
+        return
+    by_lookup = {}
+    for o in m.blotter:
+        if o.bet_id is None:
+            if not o.complete:
+                return
+            continue
+        x = w.api.orders.get(o.bet_id)
+        if x is None:
+            return
+        by_lookup.setdefault(o.lookup, []).append((o, x))
+    for lookup, pairs in by_lookup.items():
+        self.c("clause:C10.d")
+        self.c("ground_truth_points")
+        if all(x["status"] != "Unmatched" for _, x in pairs):
+            rc = w.strategies[0].get_runner_context(*lookup)
+            if rc.live_trades:
+                self.v("C10.d", ("lock-out", "exchange-complete"), "every bet on runner %s is finished at the exchange (%s) and has been polled, but %d trade(s) are still charged as live (local orders: %s)" % (lookup[1:], [x["status"] for _, x in pairs], len(rc.live_trades), [L.sname(o.status) for o, _ in pairs]), once=(lookup, "ground"))
+
+
+BetdaqLife._c10_ground = _c10_ground
+
 A = dict(sel=1, side="BACK", price=2.0, size=2.0)
 SCRIPTS = {
     "place-cancel": [["P", A], ["C", 0, None]],
@@ -420,6 +490,10 @@ SCRIPTS = {
     "place-update-update": [["P", A], ["U", 0, 1.0, 2.2], ["U", 0, 0.0, 2.4]],
     "place-cancelpart-replace": [["P", A], ["C", 0, 1.0], ["R", 0, 2.2]],
     "place2-cancel": [["P", A], ["P", dict(A, sel=2, side="LAY")], ["C", 0, None], ["C", 1, None]],
+    # size-only updates (the price stays): the second is asked for while the first may still be in flight
+    "place-sizeupdate-sizeupdate": [["P", A], ["U", 0, 1.0], ["U", 0, 1.0]],
+    # a LAY order: its exposure depends on the limit price the local order believes it has
+    "lay-update-cancel": [["P", dict(A, side="LAY", price=3.0, size=4.0)], ["U", 0, 0.0, 5.0], ["C", 0, None]],
 }
 
 
@@ -457,6 +531,7 @@ def explore_betdaq(rep, enabled, tier):
     for name in ("place-cancel", "place-update-cancel"):
         for faults in (["RAISE"], [None, "RAISE"], [["ERR"]], [None, "DROP"], [None, "ERR"]):
             jobs.append((name, faults, sorted(enabled)))
+    jobs.append(("lay-update-cancel", [None, "ERR"], sorted(enabled)))
     n = 0
     for r in core.pmap(_job, jobs, chunk=1):
         rep.add_violations(r["violations"])
